@@ -11,6 +11,10 @@ func funcComputedCompute(ctx *Context, this *VMValue, params []*VMValue) *VMValu
 }
 
 func funcArrayKeepLow(ctx *Context, this *VMValue, params []*VMValue) *VMValue {
+	if params[0].TypeId != VMTypeInt {
+		ctx.Error = errors.New("(arr.kl)类型不符")
+		return nil
+	}
 	isAllInt, ret := this.ArrayFuncKeepLow(ctx, params[0].MustReadInt())
 	if isAllInt {
 		return NewIntVal(IntType(ret))
@@ -20,6 +24,10 @@ func funcArrayKeepLow(ctx *Context, this *VMValue, params []*VMValue) *VMValue {
 }
 
 func funcArrayKeepHigh(ctx *Context, this *VMValue, params []*VMValue) *VMValue {
+	if params[0].TypeId != VMTypeInt {
+		ctx.Error = errors.New("(arr.kh)类型不符")
+		return nil
+	}
 	isAllInt, ret := this.ArrayFuncKeepHigh(ctx, params[0].MustReadInt())
 	if isAllInt {
 		return NewIntVal(IntType(ret))
